@@ -964,6 +964,15 @@ where
                 continue;
             }
 
+            // A reload may have re-created this pool since the last transaction: route
+            // this message with the pool and the settings that are in effect now.
+            if let Some(current) = get_pool(&self.pool_name, &self.username) {
+                if current.config_hash != pool.config_hash {
+                    query_router.update_pool_settings(&current.settings);
+                    pool = current;
+                }
+            }
+
             // Handle all custom protocol commands, if any.
             if self
                 .handle_custom_protocol(&mut query_router, &message, &pool)
